@@ -2,30 +2,44 @@ import BpModel.All
 import BpModel.Spec
 import BpProofs.Props.C01
 import BpProofs.SpecLink
+import BpProofs.SpecLinkNarrow
+import BpProofs.DumpNarrow
+import BpProofs.OkSound
 /-
   C02 — `dump_sound`: the bytes the MODEL ENCODER (`dumpVal`, i.e. `bytes(message)`) produces
   are decoded by the independent SPEC decoder (`BpModel/Spec.lean`) into the same values.
 
   Derived, not proved from scratch: C01's round trip (`roundtrip_nested_partial`: the model
   decoder reads `bytes(m)` back as a message `m'` equivalent to `m` under `ValEqv`) composed
-  with C02's `load_complete` (`Bp.Link.load_complete_bytes`: on what the model decoder
-  accepts, the spec decoder yields the abstraction of the model's result).
+  with C02's `load_complete` (`Bp.Link.load_complete_bytes`, for `dump_sound` in its `narrow32U`
+  form `Bp.Link.load_complete_bytesU`: on what the model decoder accepts, the spec decoder yields
+  the abstraction of the model's result).
 
   This file is separate from `BpProofs/Props/C02.lean` because the C01 files (`BpProofs/Rt*`)
   and the C02 helper files (`BpProofs/SpecWf` …) used to define `Bp.foldFields_append` (since renamed) and cannot
   be imported together; `BpProofs/SpecLink*.lean` import neither.
 
-  FULL STATEMENT (target, kept visible):
+  FULL STATEMENT:
       GoodSchema S → MsgOk S m → dumpVal S m = .ok bs → bs.length < 2^64 →
         ∃ m' a, ValEqv S m m' ∧ Spec.decodeBytes S c bs = some a ∧ a.nrm = absOf m'
-  PROVED: `dump_sound_partial` — the full statement with ONE extra decidable premise on the
-    produced bytes, `narrow32 S (bs.length + 1) d bs = true` (no uint32 / sint32 position of
-    `bs` holds a varint ≥ 2^32), and `dump_sound_noNarrow` — the full statement, no extra
-    premise, for every schema that uses uint32 / sint32 nowhere (`noNarrowB`).
-  MISSING: `MsgOk S m → dumpVal S m = .ok bs → narrow32 S (bs.length + 1) d bs = true`
-    (every `uint32` / `sint32` value of an `MsgOk` message is in range — `scalarOk` — and the
-    encoder writes it minimally, so it is true; the proof needs the structure of the
-    encoder's output, record by record, and was not done).
+  PROVED, no extra premise: `dump_sound` (and `dump_sound_total`, with the encoding supplied by
+    C01's `encodable`).
+  HOW.  `load_complete` was proved under the input guard `narrow32` ("no uint32 / sint32 position
+    holds a varint ≥ 2^32").  The hoped-for lemma
+        MsgOk S m → dumpVal S m = .ok bs → narrow32 S (bs.length + 1) d bs = true        (*)
+    is FALSE — counterexample `CX` below: `narrow32` also inspects records whose number the class
+    declares but whose wire type does not fit the declared type; such a record is an UNKNOWN field
+    for both decoders, `MsgOk` admits it among the unknown fields a message carries (`UnkOk`),
+    and `bytes(m)` appends it verbatim.  (The encoder's OWN records never violate it.)
+    So the guard was weakened to `narrow32U` = `narrow32` with the unknown records skipped, at
+    every nesting level (`BpProofs/SpecLinkNarrow.lean`: `narrow32U_of_narrow32`, and
+    `load_complete_bytesU` = `load_complete` under `narrow32U`, by one extra step lemma for
+    unknown records).  For `narrow32U` the lemma (*) is TRUE and proved:
+    `Bp.Link.dump_narrowU` (`BpProofs/DumpNarrow.lean`; restated here as `dump_narrowU`), for every nesting fuel, every `MsgOk`
+    value (arbitrary unknown fields at every level, nested / repeated messages, maps, packed
+    payloads, wrappers, Timestamp / Duration), with the premise `bs.length < 2^64` (a longer
+    length prefix is not a 64-bit varint).  It needs no schema guard (`MsgOk` carries what it uses).
+  KEPT: `dump_sound_partial` (premise `narrow32`), `dump_sound_noNarrow`, `dump_sound_total_partial`.
   How the spec treats a field that is absent on the wire: `ph` ("nothing"), whatever the
   field's presence discipline; the model holds `ph` (plain field) or `None` (proto3-optional)
   there, identified by `nv`.  `ValEqv` (C01) relates `m` to the re-read `m'`: equal, or, where
@@ -89,8 +103,98 @@ example : narrow32 SU 19 SU[0] [8, 255, 255, 255, 255, 15, 18, 10, 255, 255, 255
 example : (Spec.decodeBytes SU 0 [8, 255, 255, 255, 255, 15, 18, 10, 255, 255, 255, 255, 15, 254, 255, 255, 255, 15]).map (·.nrm)
     = some { cls := 0, fields := [.int 4294967295, .list [.int (-2147483648), .int 2147483647]], sel := [] } := by rfl
 
+/-! ### `dump_sound`, unconditional -/
+
+/-- **`dump_narrow`** in the form that is true (the weakened guard `narrow32U`): every
+    `uint32` / `sint32` position of `bytes(m)` that the class knows holds a varint below 2^32 -/
+theorem dump_narrowU (S : Schema) (c : Nat) (d : MsgD) (hd : S[c]? = some d)
+    (sl : List Val) (ow : Bool) (unk : Bytes) (cur : List (Option Nat))
+    (hm : MsgOk S (.msg c sl ow unk cur))
+    (bs : Bytes) (hdump : dumpVal S (.msg c sl ow unk cur) = .ok bs) (hbl : bs.length < 2 ^ 64) :
+    narrow32U S (bs.length + 1) d bs = true :=
+  Bp.Link.dump_narrowU S c d hd sl ow unk cur hm bs hdump hbl _
+
+/-- **`dump_sound`**: for every well-typed message `m` (`MsgOk`), the spec decoder reads
+    `bytes(m)` as `m` (up to `ValEqv`: a slot that emitted no byte reads back as the unset
+    default).  No premise on the produced bytes except their length. -/
+theorem dump_sound (S : Schema) (hS : GoodSchema S) (c : Nat) (d : MsgD) (hd : S[c]? = some d)
+    (sl : List Val) (ow : Bool) (unk : Bytes) (cur : List (Option Nat))
+    (hm : MsgOk S (.msg c sl ow unk cur))
+    (bs : Bytes) (hdump : dumpVal S (.msg c sl ow unk cur) = .ok bs) (hbl : bs.length < 2 ^ 64) :
+    ∃ sl' a, ValEqv S (.msg c sl ow unk cur) (.msg c sl' true unk cur)
+      ∧ Spec.decodeBytes S c bs = some a
+      ∧ a.nrm = { cls := c, fields := nvs sl', sel := cur } := by
+  obtain ⟨sl', hp, hv, _⟩ := C01.roundtrip_nested_partial S c d hd sl ow unk cur hm bs hdump hbl
+  obtain ⟨a, ha, hnrm⟩ := load_complete_bytesU S hS c d hd bs _
+    (dump_narrowU S c d hd sl ow unk cur hm bs hdump hbl) hp
+  exact ⟨sl', a, hv, ha, hnrm⟩
+
+/-- … with the encoding hypothesis discharged by C01's `encodable`: every well-typed message
+    HAS an encoding, and (if shorter than 2^64 bytes) the spec decoder reads it as the message -/
+theorem dump_sound_total (S : Schema) (hS : GoodSchema S) (c : Nat) (d : MsgD) (hd : S[c]? = some d)
+    (sl : List Val) (ow : Bool) (unk : Bytes) (cur : List (Option Nat))
+    (hm : MsgOk S (.msg c sl ow unk cur)) :
+    ∃ bs, dumpVal S (.msg c sl ow unk cur) = .ok bs ∧
+      (bs.length < 2 ^ 64 →
+        ∃ sl' a, ValEqv S (.msg c sl ow unk cur) (.msg c sl' true unk cur)
+          ∧ Spec.decodeBytes S c bs = some a
+          ∧ a.nrm = { cls := c, fields := nvs sl', sel := cur }) := by
+  obtain ⟨bs, hbs⟩ := C01.encodable S _ hm
+  exact ⟨bs, hbs, fun hbl => dump_sound S hS c d hd sl ow unk cur hm bs hbs hbl⟩
+
+/-! ### CX — the lemma (*) for the ORIGINAL guard `narrow32` is false
+
+  Class 0 declares `uint32 u = 1` (singular).  The message carries one unknown field: number 1
+  with wire type 2 (unfitting: a singular `uint32` is never length-delimited), payload = the
+  5-byte varint 2^32.  The value is `MsgOk`, `bytes(m)` is those 7 bytes, `narrow32` rejects them
+  (it reads the payload as packed elements of the declared type), `narrow32U` accepts them, and
+  both decoders ignore the record — `dump_sound` holds on it. -/
+def CX : Schema := [{ fields := [{ name := "u", num := 1, ty := .uint32 }] }]
+def mCX : Val := .msg 0 [.ph] true [10, 5, 128, 128, 128, 128, 16] []
+example : GoodSchema CX := by decide
+example : MsgOk CX mCX := msgOkB_sound CX mCX (by decide)
+example : dumpVal CX mCX = .ok [10, 5, 128, 128, 128, 128, 16] := by decide
+example : narrow32 CX 8 CX[0] [10, 5, 128, 128, 128, 128, 16] = false := by decide
+example : narrow32U CX 8 CX[0] [10, 5, 128, 128, 128, 128, 16] = true := by decide
+example : (Spec.decodeBytes CX 0 [10, 5, 128, 128, 128, 128, 16]).map (·.nrm)
+    = some { cls := 0, fields := [.ph], sel := [] } := by rfl
+example : parse CX 0 [10, 5, 128, 128, 128, 128, 16] = .ok mCX := by rfl
+-- the premise-free theorem on the earlier example with boundary uint32 / sint32 values
+example : narrow32U SU 19 SU[0] [8, 255, 255, 255, 255, 15, 18, 10, 255, 255, 255, 255, 15, 254, 255, 255, 255, 15] = true := by decide
+
+/-! non-vacuity, nested: a `map<uint32, sint32>`, a `UInt32Value` wrapper, a sub-message with a
+    packed `repeated uint32`, a `sint32` and — inside the SUB-message — an unknown field of the
+    kind of `CX` (number 2 = the `sint32`, wire type 2, payload = the varint 2^32); every 32-bit
+    value at its boundary.  `narrow32` fails (because of the nested unknown record only),
+    `narrow32U` holds, the spec decoder returns the values. -/
+def SNest : Schema :=
+  [ { fields := [ { name := "m", num := 1, ty := .map, mapK := .uint32, mapV := .sint32 },
+                  { name := "w", num := 2, ty := .message, wraps := some .uint32 },
+                  { name := "s", num := 3, ty := .message, kind := .user 1 } ] },
+    { fields := [ { name := "r", num := 1, ty := .uint32, repeated := true },
+                  { name := "u", num := 2, ty := .sint32 } ] } ]
+def mNest : Val :=
+  .msg 0 [ .dict [.int 4294967295] [.int (-2147483648)], .int 4294967295,
+           .msg 1 [.list [.int 4294967295, .int 0], .int 2147483647] true [18, 5, 128, 128, 128, 128, 16] [] ] true [] []
+def bsNest : Bytes :=
+  [10, 12, 8, 255, 255, 255, 255, 15, 16, 255, 255, 255, 255, 15, 18, 6, 8, 255, 255, 255, 255, 15, 26, 21, 10,
+   6, 255, 255, 255, 255, 15, 0, 16, 254, 255, 255, 255, 15, 18, 5, 128, 128, 128, 128, 16]
+example : GoodSchema SNest := by decide
+example : MsgOk SNest mNest := msgOkB_sound SNest mNest (by decide)
+example : dumpVal SNest mNest = .ok bsNest := by decide
+example : narrow32 SNest (bsNest.length + 1) SNest[0] bsNest = false := by decide
+example : narrow32U SNest (bsNest.length + 1) SNest[0] bsNest = true := by decide
+example : (Spec.decodeBytes SNest 0 bsNest).map (·.nrm)
+    = some { cls := 0,
+             fields := [.dict [.int 4294967295] [.int (-2147483648)], .int 4294967295,
+                        .msg 1 [.list [.int 4294967295, .int 0], .int 2147483647] true [] []],
+             sel := [] } := by rfl
+
 end Bp.C02
 
 #print axioms Bp.C02.dump_sound_partial
 #print axioms Bp.C02.dump_sound_noNarrow
 #print axioms Bp.C02.dump_sound_total_partial
+#print axioms Bp.C02.dump_narrowU
+#print axioms Bp.C02.dump_sound
+#print axioms Bp.C02.dump_sound_total
